@@ -42,6 +42,8 @@ func vhRun(q *gojq.Query, v any) gojq.Iter {
 		return &vhIter{vals: []any{data["v"]}}
 	case "{a: .v}":
 		return &vhIter{vals: []any{map[string]any{"a": data["v"]}}}
+	case "{a: .kind}":
+		return &vhIter{vals: []any{map[string]any{"a": data["kind"]}}}
 	case ".v, .w":
 		return &vhIter{vals: []any{data["v"], data["w"]}}
 	case "error(\"boom\")":
